@@ -599,7 +599,8 @@ impl CodegenContext {
                                 .allowed("fill")
                                 .allowed("filename")
                                 .extract(id.span, &kvps)?;
-                            let name = Identifier::new(extractor.get_string(self, "name")?);
+                            let name =
+                                Self::to_identifier(extractor.get_string(self, "name")?, id.span)?;
 
                             let opts = BankOptions {
                                 name: name.clone(),
@@ -632,7 +633,8 @@ impl CodegenContext {
                                 .extract(id.span, &kvps)?;
 
                             let mut opts = SegmentOptions::default();
-                            let name = Identifier::new(extractor.get_string(self, "name")?);
+                            let name =
+                                Self::to_identifier(extractor.get_string(self, "name")?, id.span)?;
                             match extractor.try_get_i64(self, "start") {
                                 Ok(Some(val)) => {
                                     log::trace!(
@@ -661,8 +663,10 @@ impl CodegenContext {
                             if let Some(write) = extractor.try_get_i64(self, "write")? {
                                 opts.write = write != 0;
                             }
-                            opts.bank =
-                                extractor.try_get_string(self, "bank")?.map(Identifier::new);
+                            opts.bank = match extractor.try_get_string(self, "bank")? {
+                                Some(bank) => Some(Self::to_identifier(bank, id.span)?),
+                                None => None,
+                            };
                             match extractor.try_get_i64(self, "pc")? {
                                 Some(target) => opts.target_address = target.into(),
                                 None => opts.target_address = opts.initial_pc,
@@ -1126,6 +1130,17 @@ impl CodegenContext {
         }
 
         Ok(())
+    }
+
+    /// Names of banks and segments are [Identifier]s, which may not contain periods
+    fn to_identifier(name: String, span: Span) -> CoreResult<Identifier> {
+        if name.contains('.') {
+            return Err(Diagnostic::error()
+                .with_message(format!("'{}' may not contain periods", name))
+                .with_labels(vec![span.to_label()])
+                .into());
+        }
+        Ok(Identifier::new(name))
     }
 
     fn map_evaluation_error(&self, error: EvaluationError) -> Diagnostics {
